@@ -665,6 +665,16 @@ func trackRun(e *Env) {
 			}
 		}
 	}
+	if g.Pct(30) {
+		// every character a nickname may have: brackets, braces, bar, backslash,
+		// caret, backquote, underscore, hyphen
+		for i := range names {
+			if g.Pct(40) {
+				names[i] = []string{"{%s}", "[%s]", "%s|afk", "%s^", "`%s`", "_%s-", "%s\\x", "w{%s"}[g.Intn(8)]
+				names[i] = fmt.Sprintf(names[i], []string{"al", "bo", "ca", "da", "er", "fr", "gr", "he"}[i])
+			}
+		}
+	}
 	chanFmt := []string{"#c%d", "#Chan%d", "&LOCAL%d", "#GoLang-%d"}[g.W(5, 2, 1, 1)]
 	net.me = &netUser{nick: "me", ident: "sim", host: "host.sim", name: "Sim User"}
 	net.users = append(net.users, net.me)
